@@ -21,6 +21,8 @@ type C06Sc struct {
 	Image  []world.Seg   `json:"image"`  // everything else is NOP (00)
 	Events []world.Event `json:"events"`
 	Steps  int           `json:"steps"`
+	// NilHandlers: no notification handlers registered (nil interface values)
+	NilHandlers bool `json:"nil_handlers,omitempty"`
 }
 
 type c06 struct{}
@@ -130,6 +132,7 @@ func (c06) Gen(r *world.Rng, tier string, n int) interface{} {
 	}
 	sc.Regs = regs
 	sc.Halted = halted
+	sc.NilHandlers = r.Chance(1, 8)
 
 	t2 := uint16(r.Range(0x4000, 0x5fff))
 	tc := uint16(r.Range(0x6000, 0x7fff))
@@ -262,7 +265,11 @@ func (c06) Gen(r *world.Rng, tier string, n int) interface{} {
 		case x < 85:
 			ev.AtTick = uint64(r.Range(1, 2*sc.Steps))
 		default:
-			ev.OnRet = true
+			if sc.NilHandlers {
+				ev.Boundary = r.Intn(sc.Steps)
+			} else {
+				ev.OnRet = true
+			}
 		}
 		sc.Events = append(sc.Events, ev)
 	}
@@ -283,6 +290,9 @@ func (c06) Exec(sci interface{}, env *Env) *Violation {
 		return viol("harness", "bad scenario: %v", err)
 	}
 	m.CPU.HALT = sc.Halted
+	if sc.NilHandlers {
+		m.CPU.RETNHandler, m.CPU.RETIHandler = nil, nil
+	}
 	base := m.Bus.Mem // copy: immutable base image of the model
 	ms := []*model.IntState{{
 		IFF1: sc.Regs.IFF1, IFF2: sc.Regs.IFF2, IM: sc.Regs.IM, I: sc.Regs.I, A: uint8(sc.Regs.AF >> 8),
@@ -355,7 +365,11 @@ func (c06) Exec(sci interface{}, env *Env) *Violation {
 			if c.Last == model.KUnknown {
 				continue
 			}
-			d := c.Diff(cpu.IFF1, cpu.IFF2, cpu.IM, cpu.IR.Hi, cpu.PC, cpu.SP, m.Cnt.RETN, m.Cnt.RETI)
+			nretn, nreti := m.Cnt.RETN, m.Cnt.RETI
+			if sc.NilHandlers {
+				nretn, nreti = c.NRETN, c.NRETI // nothing to observe
+			}
+			d := c.Diff(cpu.IFF1, cpu.IFF2, cpu.IM, cpu.IR.Hi, cpu.PC, cpu.SP, nretn, nreti)
 			if req != nil && c.Consumed != consumed {
 				d += fmt.Sprintf(" request-consumed: model=%t cpu=%t", c.Consumed, consumed)
 			}
